@@ -90,6 +90,10 @@ def bounded(t, st, eng, depth=0):
             return 'guard n <= max_size'
         if kind == 'lt' and x == t and is_max_term(y) and not summed:
             return 'guard n < max_size'
+        # s < MAX with t == s + 1  (spelled `!(max <= size)`; the `max == size` spelling is below)
+        if kind == 'lt' and is_max_term(y) and lin_add(x, L(1)) == t \
+                and not (sum(1 for at, co in x[2] if co > 0) >= 2 or any(co >= 2 for at, co in x[2])):
+            return 'guard size < max_size (n = size + 1)'
         # k <= MAX - s  with t == s + k   (spelled `!(max - size < n)`)
         if kind == 'le' and y[2] and lin_add(x, y) != x:
             s_part = None
